@@ -6,6 +6,9 @@ WBS.start / WBS.end shape; the forward leaf end derives from a fill started at >
 Round 4: the side of the date on which the fill books (backward: first examined day is the day before midnight(end'), also
 on conditional pre-loop steps of the day cursor); running totals (`total += child.estimate` in the children loop, or totals
 fed by the values the recursive call returns - then every return of the pass must hand back the task's field).
+Round 5: a backward leaf start is the fill's start or min(user start, that) on every path (a user start kept as it is can lie
+after the end); a roll-up passed through round()/int() is not the sum; min/max(.., default=..) is the plain extremum; a visited
+flag kept on the task objects instead of a per-call memo (sched.PassShape.memo_on_task) makes a later calc skip tasks.
 Not decided: start <= end of a leaf from the numeric interaction of day fractions.
 """
 from __future__ import annotations
